@@ -106,6 +106,18 @@ REGISTRY["C06"] = {
     "assumptions": _AS_COMMON + ["x86/x64 half of C06 is not covered (see not_applicable reasoning in DESIGN.md section 5)", "memory accesses are assumed not to wrap around the address space (address <= 2^XLEN - 16)"],
 }
 
+REGISTRY["C16"] = {
+    "modules": ["contracts.structs"],
+    "category": "other",
+    "technique": "contract-based deductive verification of the real code: StructCore.size/offsets/offset_of/unpack and Field.align executed with stub fields of symbolic size against the C-ABI layout function; LEB128 encode/decode round trip for all |x| < 2^70 (z3); run-time contracts of the definition language against ctypes",
+    "level_text": "Bounded symbolic: the layout functions are verified for ALL field sizes with <= 4 (quick) / 6 (thorough) fields and enumerated alignments, packed / natural / union; Field.align and the LEB128 round trip (encoder canonical and minimal, decoder ignores trailing bytes) are proof level for all offsets / all |x| < 2^70. Run-time contracts (concrete, never counted as proved): seeded structure definitions compared with ctypes for size, offsets, unpacked values and pack(unpack(data)).",
+    "level_note": "trusted: z3, symx engine/shims, the C-ABI layout function in contracts/structs.py (cross-checked against ctypes on the generated definitions), ctypes/struct of CPython as the C reference. Not covered symbolically: nested definitions, bit fields, counted/bound/terminated variable-length fields (only through the run-time generator, which currently emits scalars and arrays).",
+    "design_ref": "DESIGN.md section 4 (C16)",
+    "explanation": "bounded symbolic verification of the struct layout functions (symbolic sizes, <= 6 fields), proof of LEB128 round trip, run-time contracts against ctypes",
+    "trusted_base": _TB + ["C-ABI layout function (contracts/structs.py: cabi)", "ctypes (reference C layout)"],
+    "assumptions": _AS_COMMON,
+}
+
 NOT_APPLICABLE = {
     "C07": "the oracle is the behaviour of two external programs (binutils, LLVM): no contract on amoco's functions can state it without hand-writing a model of those decoders; a vendored table comparison is example-based testing, a different family",
 }
